@@ -42,6 +42,10 @@ impl Interval {
     pub fn new(lower: f32, upper: f32) -> (r: Self) ensures r.lower == lower, r.upper == upper { unimplemented!() }
     pub fn lower(&self) -> (r: f32) ensures r == self.lower { self.lower }
     pub fn upper(&self) -> (r: f32) ensures r == self.upper { self.upper }
+    /// fidget_core::types::Interval::contains: `v >= self.lower && v <= self.upper` (false for the NaN interval); declared so that an edit
+    /// that decides fills with it is decided by the proof instead of leaving the verifier subset
+    #[verifier::external_body]
+    pub fn contains(&self, v: f32) -> (r: bool) ensures r == (fle(self.lower, v) && fle(v, self.upper)) { unimplemented!() }
 }
 pub open spec fn mem(v: f32, i: Interval) -> bool { fle(i.lower, v) && fle(v, i.upper) }
 
